@@ -30,9 +30,10 @@ INT_TY["isize"] = INT_TY["i64"]
 
 # ----------------------------------------------------------------------------- terms
 class T:
-    __slots__ = ("s", "lo", "hi", "tz", "split")
+    __slots__ = ("s", "lo", "hi", "tz", "split", "tzx")
     def __init__(self, s, lo, hi, tz=0, split=None):
         self.s, self.lo, self.hi, self.tz = s, lo, hi, tz
+        self.tzx = False        # tz is exact (the term is an odd multiple of 2^tz), by construction
         self.split = split      # (k, q, r): this term is q * 2^k + r with 0 <= r < 2^k, by construction
     def __repr__(self):
         return "T(%s,[%s,%s])" % (self.s if len(self.s) < 40 else self.s[:37] + "...", self.lo, self.hi)
@@ -82,6 +83,23 @@ class Opq:
 class Static:
     def __init__(self, name):
         self.name = name
+
+class ByteSlice:
+    """a `&[u8]` argument: a python list of byte values (ints or T in 0..=255)"""
+    def __init__(self, data):
+        self.data = list(data)
+
+class Ptr:
+    def __init__(self, base, off=0):
+        self.base, self.off = base, off
+
+class Vec:
+    """a 128-bit vector as lanes of `width` bits, each lane an unsigned value (int or T)"""
+    def __init__(self, width, lanes):
+        self.width, self.lanes = width, list(lanes)
+        assert width * len(self.lanes) == 128
+    def __repr__(self):
+        return "Vec%d%r" % (self.width, self.lanes)
 
 def smt_int(n):
     return str(n) if n >= 0 else "(- %d)" % (-n)
@@ -170,7 +188,12 @@ def add(a, b):
         return b
     if isinstance(b, int) and b == 0:
         return a
-    return mk("(+ %s %s)" % (sx(a), sx(b)), lo_of(a) + lo_of(b), hi_of(a) + hi_of(b), min(tz_of(a), tz_of(b)))
+    r = mk("(+ %s %s)" % (sx(a), sx(b)), lo_of(a) + lo_of(b), hi_of(a) + hi_of(b), min(tz_of(a), tz_of(b)))
+    for x, y in ((a, b), (b, a)):
+        x_exact = (isinstance(x, int) and x != 0) or (isinstance(x, T) and x.tzx)
+        if x_exact and tz_of(x) < tz_of(y):
+            r.tzx = True
+    return r
 
 def sub(a, b):
     if isinstance(a, int) and isinstance(b, int):
@@ -246,6 +269,9 @@ def wrap(ctx, x, ty):
     key = ("wrap", x.s, ty)
     if key in ctx.cache:
         return ctx.cache[key]
+    if ((x.lo - lo) >> w) == ((x.hi - lo) >> w):
+        # the whole interval lies in one period: the wrapped value is x shifted by a known multiple of 2^w
+        return sub(x, ((x.lo - lo) >> w) << w)
     if lo == 0:
         _, r = divmod_pow2(ctx, x, w)
         res = r if isinstance(r, int) else T(r.s, r.lo, r.hi, min(x.tz, w))
@@ -555,6 +581,9 @@ class Interp:
         self.opaque_calls = set()
         self.interpreted_calls = set()
         self.impl_consts = {}      # "<F as Trait>::NAME" -> value, supplied by the caller
+        self.intrinsics_used = set()
+        self.tolerate_unsupported = False
+        self.unsupported_paths = []
 
     # -- lookup
     def find_fn(self, callee):
@@ -592,6 +621,13 @@ class Interp:
             return Opq("str")
         if re.match(r"^-?[\d.]+(E[+-]?\d+)?f(32|64)$", s) or s in ("f64::INFINITY", "f64::NAN"):
             return Opq("float-const")
+        m = re.match(r"^<\w+ as (?:[\w:]+::)?RawFloat>::(\w+)$", s)
+        if m and m.group(1) in self.impl_consts:
+            kind, val, ty = self.impl_consts[m.group(1)]
+            if kind == "lit":
+                return self.const(val, env)
+            outs = list(self.run_fn(val, [], Ctx()))
+            return outs[0][1]
         if s in self.impl_consts:
             return self.impl_consts[s]
         # named const / promoted
@@ -712,7 +748,9 @@ class Interp:
                 return bnot(v)
             if isinstance(v, Opq):
                 return v
-            raise Unsupported("bitwise Not on integers")
+            if isinstance(v, int) and dst_ty in INT_TY:
+                return wrap(ctx, -v - 1, dst_ty)
+            raise Unsupported("bitwise Not on a symbolic integer")
         if m and m.group(1) == "Neg":
             v = self.operand(m.group(2), env)
             if isinstance(v, F64):
@@ -736,6 +774,8 @@ class Interp:
             kind, ty = m.group(3), m.group(2)
             if isinstance(v, Opq):
                 return Opq("cast(" + v.label + ")")
+            if isinstance(v, Ptr) and kind == "PtrToPtr":
+                return v
             if kind == "IntToInt":
                 if isinstance(v, (bool, BT)):
                     v = bool_to_int(v)
@@ -788,6 +828,9 @@ class Interp:
             for k, (kind, val, ty) in self.consts.items():
                 if k == key or k.endswith("::" + key):
                     return ty
+            m = re.match(r"^<\w+ as (?:[\w:]+::)?RawFloat>::(\w+)$", key)
+            if m and m.group(1) in self.impl_consts:
+                return self.impl_consts[m.group(1)][2]
             if key in self.impl_const_types:
                 return self.impl_const_types[key]
         raise Unsupported("type of operand: " + s)
@@ -857,10 +900,32 @@ class Interp:
             if isinstance(r, Adt) and not isinstance(x, (Opq, F64)) and not any(isinstance(v, Opq) for v in r.fields):
                 yield ctx, band(cmp_("Le", r.fields[0], x), cmp_("Le", x, r.fields[1])); return
             yield ctx, Opq("contains"); return
+        if last == "is_infinite" and "f64" in name:
+            v = args[0]
+            while isinstance(v, F64) and v.kind == "neg":
+                v = v.arg
+            if isinstance(v, F64) and v.kind == "bits" and not isinstance(v.arg, Opq):
+                yield ctx, cmp_("Eq", v.arg, 0x7FF0000000000000); return
+            yield ctx, Opq("is_infinite"); return
         if last == "from_u64_bits":
             if isinstance(args[0], Opq):
                 yield ctx, Opq("f64"); return
             yield ctx, F64("bits", args[0]); return
+        m_g = re.match(r"^(.*?)::<(-?\d+)>$", name)
+        plain, generic = (m_g.group(1), int(m_g.group(2))) if m_g else (name, None)
+        iname = plain.split("::")[-1]
+        if iname in SIMD and "arch::x86_64" in plain:
+            self.intrinsics_used.add(iname)
+            yield ctx, SIMD[iname](ctx, args, generic); return
+        if last == "as_ptr" and "impl [u8]" in name and isinstance(args[0], ByteSlice):
+            yield ctx, Ptr(args[0]); return
+        if last == "trailing_zeros" and "impl " in name:
+            x = args[0]
+            if isinstance(x, int):
+                yield ctx, (tz_of(x) if x != 0 else int(re.search(r"impl [iu](\d+)", name).group(1))); return
+            if isinstance(x, T) and x.tzx:
+                yield ctx, x.tz; return
+            raise Unsupported("trailing_zeros of a value whose lowest set bit is not known")
         f = self.find_fn(name)
         if f is not None and f.name.split("::")[-1].split("<")[0] in self.interpret:
             self.interpreted_calls.add(f.name)
@@ -879,6 +944,16 @@ class Interp:
         yield from self.run_block(f, "bb0", env, ctx, 0)
 
     def run_block(self, f, bb, env, ctx, depth):
+        """a path that needs an operator the translator does not model ends there and is counted
+        (`unsupported_paths`); the other paths go on"""
+        try:
+            yield from self._run_block(f, bb, env, ctx, depth)
+        except Unsupported as ex:
+            if not self.tolerate_unsupported:
+                raise
+            self.unsupported_paths.append("%s:%s %s" % (f.name.split("::")[-1], bb, ex))
+
+    def _run_block(self, f, bb, env, ctx, depth):
         if depth > 400:
             raise Unsupported("path longer than 400 blocks (a loop?) in " + f.name)
         stmts = f.blocks[bb]
@@ -974,6 +1049,10 @@ class Interp:
                 self.write_place(e2, dst, val)
                 yield from self.run_block(f, m.group(4), e2, c2, depth + 1)
             return
+        m = re.match(r"^(.+?) = (core|std)::panicking::(\w+)\((.*)\) -> unwind.*;$", term)
+        if m:
+            self.obligations.append(Obligation(f.name, bb, "panic: " + m.group(4)[:80], ctx.fork(), False))
+            return
         m = re.match(r"^drop\(.*\) -> \[return: (bb\d+), unwind.*\];$", term)
         if m:
             yield from self.run_block(f, m.group(1), env, ctx, depth + 1)
@@ -996,3 +1075,154 @@ class Interp:
 
 BINOPS = {"Add", "Sub", "Mul", "Div", "Rem", "BitAnd", "BitOr", "BitXor", "Shl", "Shr", "Eq", "Ne", "Lt", "Le", "Gt", "Ge",
           "AddUnchecked", "SubUnchecked", "MulUnchecked", "ShlUnchecked", "ShrUnchecked"}
+
+
+# ----------------------------------------------------------------------------- x86 vector intrinsics
+# Lane-wise models after the pseudo-code of the Intel intrinsics guide (the same semantics as
+# harness/common/intrinsics.rs, which the native self-test compares with the real instructions).
+def _signed(ctx, v, w):
+    """value of an unsigned w-bit lane read as two's complement"""
+    half = 1 << (w - 1)
+    if isinstance(v, int):
+        return v - (1 << w) if v >= half else v
+    if v.hi < half:
+        return v
+    if v.lo >= half:
+        return sub(v, 1 << w)
+    return ite(cmp_("Ge", v, half), sub(v, 1 << w), v)
+
+def _unsigned(ctx, v, w):
+    return wrap(ctx, v, "u%d" % w)
+
+def _relane(ctx, vec, width):
+    if vec.width == width:
+        return vec.lanes
+    if vec.width < width:
+        k = width // vec.width
+        out = []
+        for i in range(0, len(vec.lanes), k):
+            acc = 0
+            for j in range(k):
+                acc = add(acc, mul(vec.lanes[i + j], 1 << (vec.width * j)))
+            out.append(acc)
+        return out
+    k = vec.width // width
+    out = []
+    for v in vec.lanes:
+        rest = v
+        for j in range(k):
+            if j < k - 1:
+                rest, r = divmod_pow2(ctx, rest, width)
+                out.append(r)
+            else:
+                out.append(rest)
+    return out
+
+def _const_bytes(value, nbytes):
+    value &= (1 << (8 * nbytes)) - 1
+    return [(value >> (8 * i)) & 255 for i in range(nbytes)]
+
+def _sat(ctx, v, lo, hi):
+    if isinstance(v, int):
+        return max(lo, min(hi, v))
+    if v.lo >= lo and v.hi <= hi:
+        return v
+    r = v
+    if v.hi > hi:
+        r = ite(cmp_("Gt", v, hi), hi, r)
+    if v.lo < lo:
+        r = ite(cmp_("Lt", v, lo), lo, r)
+    return r
+
+def _i_loadu(ctx, a, g):
+    p = a[0]
+    if not isinstance(p, Ptr) or len(p.base.data) < p.off + 16:
+        raise Unsupported("_mm_loadu_si128 from an unknown pointer")
+    return Vec(8, p.base.data[p.off:p.off + 16])
+
+MASK_TERMS = set()      # smt strings of lanes known to be 0 or 255 (comparison results)
+
+def _i_cmpgt8(ctx, a, g):
+    x, y = _relane(ctx, a[0], 8), _relane(ctx, a[1], 8)
+    out = [ite(cmp_("Gt", _signed(ctx, p, 8), _signed(ctx, q_, 8)), 255, 0) for p, q_ in zip(x, y)]
+    for v in out:
+        if isinstance(v, T):
+            MASK_TERMS.add(v.s)
+    return Vec(8, out)
+
+def _i_or(ctx, a, g):
+    x, y = _relane(ctx, a[0], 8), _relane(ctx, a[1], 8)
+    out = []
+    for p, q_ in zip(x, y):
+        if isinstance(p, int) and isinstance(q_, int):
+            out.append(p | q_)
+        elif p == 0 or (isinstance(p, int) and p == 0):
+            out.append(q_)
+        elif isinstance(q_, int) and q_ == 0:
+            out.append(p)
+        elif (isinstance(p, int) and p == 255) or (isinstance(q_, int) and q_ == 255):
+            out.append(255)
+        elif isinstance(p, T) and isinstance(q_, T) and p.s in MASK_TERMS and q_.s in MASK_TERMS:
+            r = mk("(ite (or (= %s 255) (= %s 255)) 255 0)" % (p.s, q_.s), 0, 255)
+            MASK_TERMS.add(r.s)
+            out.append(r)
+        else:
+            raise Unsupported("_mm_or_si128 of two symbolic lanes")
+    return Vec(8, out)
+
+def _i_movemask8(ctx, a, g):
+    acc = 0
+    for i, v in enumerate(_relane(ctx, a[0], 8)):
+        bit = (v >> 7) if isinstance(v, int) else bool_to_int(cmp_("Ge", v, 128))
+        acc = add(acc, mul(bit, 1 << i))
+    return acc
+
+def _i_slli_si128(ctx, a, g):
+    lanes = _relane(ctx, a[0], 8)
+    n = min(g, 16)
+    return Vec(8, [0] * n + lanes[:16 - n])
+
+def _i_maddubs(ctx, a, g):
+    x, y = _relane(ctx, a[0], 8), _relane(ctx, a[1], 8)
+    out = []
+    for j in range(8):
+        p = add(mul(x[2 * j], _signed(ctx, y[2 * j], 8)), mul(x[2 * j + 1], _signed(ctx, y[2 * j + 1], 8)))
+        out.append(_unsigned(ctx, _sat(ctx, p, -32768, 32767), 16))
+    return Vec(16, out)
+
+def _i_madd16(ctx, a, g):
+    x, y = _relane(ctx, a[0], 16), _relane(ctx, a[1], 16)
+    out = []
+    for j in range(4):
+        p = add(mul(_signed(ctx, x[2 * j], 16), _signed(ctx, y[2 * j], 16)), mul(_signed(ctx, x[2 * j + 1], 16), _signed(ctx, y[2 * j + 1], 16)))
+        out.append(_unsigned(ctx, p, 32))
+    return Vec(32, out)
+
+def _i_packus32(ctx, a, g):
+    x, y = _relane(ctx, a[0], 32), _relane(ctx, a[1], 32)
+    return Vec(16, [_sat(ctx, _signed(ctx, v, 32), 0, 65535) for v in x + y])
+
+def _i_extract(width):
+    def f(ctx, a, g):
+        v = _relane(ctx, a[0], width)[g]
+        return _signed(ctx, v, 32) if width == 32 else v      # epi8/epi16 zero-extend into i32
+    return f
+
+SIMD = {
+    "_mm_loadu_si128": _i_loadu,
+    "_mm_setzero_si128": lambda ctx, a, g: Vec(8, [0] * 16),
+    "_mm_set1_epi8": lambda ctx, a, g: Vec(8, [a[0] & 255 if isinstance(a[0], int) else _unsigned(ctx, a[0], 8)] * 16),
+    "_mm_set1_epi64x": lambda ctx, a, g: Vec(8, _const_bytes(a[0], 8) * 2),
+    "_mm_set_epi16": lambda ctx, a, g: Vec(16, [x & 65535 for x in reversed(a)]),
+    "_mm_sub_epi8": lambda ctx, a, g: Vec(8, [_unsigned(ctx, sub(p, q_), 8) for p, q_ in zip(_relane(ctx, a[0], 8), _relane(ctx, a[1], 8))]),
+    "_mm_cmpgt_epi8": _i_cmpgt8,
+    "_mm_or_si128": _i_or,
+    "_mm_movemask_epi8": _i_movemask8,
+    "_mm_slli_si128": _i_slli_si128,
+    "_mm_maddubs_epi16": _i_maddubs,
+    "_mm_madd_epi16": _i_madd16,
+    "_mm_packus_epi32": _i_packus32,
+    "_mm_extract_epi8": _i_extract(8),
+    "_mm_extract_epi16": _i_extract(16),
+    "_mm_extract_epi32": _i_extract(32),
+}
